@@ -50,7 +50,11 @@ func pfGenesis(cdc codec.JSONCodec, assets []string, prices []string, with30 boo
 	return app.GenesisState{pftypes.ModuleName: cdc.MustMarshalJSON(&pf)}
 }
 
-func cdpGenesis(cdc codec.JSONCodec) []app.GenesisState {
+func cdpGenesis(cdc codec.JSONCodec, cfg *histCfg) []app.GenesisState {
+	fee := sdk.OneDec()
+	if cfg.hasInterest() {
+		fee = sdk.MustNewDecFromStr(cfg.Interest)
+	}
 	cg := cdptypes.GenesisState{
 		Params: cdptypes.Params{
 			GlobalDebtLimit:          sdk.NewCoin("usdx", sdkmath.NewIntFromBigInt(Pow10(20))),
@@ -58,7 +62,7 @@ func cdpGenesis(cdc codec.JSONCodec) []app.GenesisState {
 			SurplusAuctionLot:        sdkmath.NewIntFromBigInt(Pow10(10)),
 			DebtAuctionThreshold:     sdkmath.NewIntFromBigInt(Pow10(14)),
 			DebtAuctionLot:           sdkmath.NewIntFromBigInt(Pow10(10)),
-			LiquidationBlockInterval: 7,
+			LiquidationBlockInterval: 3,
 			DebtParam: cdptypes.DebtParam{Denom: "usdx", ReferenceAsset: "usd", ConversionFactor: sdkmath.NewInt(6),
 				DebtFloor: sdkmath.NewInt(10)},
 		},
@@ -71,7 +75,7 @@ func cdpGenesis(cdc codec.JSONCodec) []app.GenesisState {
 		cg.Params.CollateralParams = append(cg.Params.CollateralParams, cdptypes.CollateralParam{
 			Denom: cdpDenoms[i], Type: t, LiquidationRatio: sdk.MustNewDecFromStr("1.5"),
 			DebtLimit:    sdk.NewCoin("usdx", sdkmath.NewIntFromBigInt(Pow10(19))),
-			StabilityFee: sdk.OneDec(), AuctionSize: sdkmath.NewIntFromBigInt(Pow10(13)),
+			StabilityFee: fee, AuctionSize: sdkmath.NewIntFromBigInt(Pow10(13)),
 			LiquidationPenalty: sdk.MustNewDecFromStr("0.05"), SpotMarketID: cdpDenoms[i] + ":usd", LiquidationMarketID: cdpDenoms[i] + ":usd:30",
 			KeeperRewardPercentage: sdk.MustNewDecFromStr("0.01"), CheckCollateralizationIndexCount: sdkmath.NewInt(10),
 			ConversionFactor: sdkmath.NewInt(6),
@@ -112,7 +116,9 @@ func (w *world) execCdp(o op) (Class, error) {
 	ck := w.tApp.GetCDPKeeper()
 	srv := cdpkeeper.NewMsgServerImpl(ck)
 	t := cdpTypes[o.P]
-	coll := func(a string) sdk.Coin { return sdk.Coin{Denom: cdpDenoms[o.P], Amount: sdkmath.NewIntFromBigInt(bigOf(a))} }
+	coll := func(a string) sdk.Coin {
+		return sdk.Coin{Denom: cdpDenoms[o.P], Amount: sdkmath.NewIntFromBigInt(bigOf(a))}
+	}
 	usdx := func(a string) sdk.Coin { return sdk.Coin{Denom: "usdx", Amount: sdkmath.NewIntFromBigInt(bigOf(a))} }
 	return Atomically(w.ctx, func(ctx sdk.Context) error {
 		g := sdk.WrapSDKContext(ctx)
